@@ -10,8 +10,8 @@ func init() {
 		Technique:   "schedule- and fault-generating property-based testing (rapid + testing/synctest), leak detection by bubble exit; race-detector variant",
 		DesignRef:   "DESIGN.md section 3, C05",
 		Runs: []run{
-			{Test: "TestC05_Seq", Quick: 1500, Thorough: 15000},
-			{Test: "TestC05_Race", Quick: 500, Thorough: 6000, Race: true},
+			{Test: "TestC05_Seq", Quick: 1500, Thorough: 30000},
+			{Test: "TestC05_Race", Quick: 500, Thorough: 12000, Race: true},
 		},
 	})
 }
